@@ -35,11 +35,11 @@ import (
 // fold callbacks tick a vrt.Budget. Consumers without a callback (ToSeq, Count) run only on a
 // value the walker has already seen end. Keys are `<site>[<argument class>]/<kind>`, argument
 // class = `[bound=MinInt]` / `[bound=MaxInt]` for the second bound of a range,
-// `[negative count]` for Take/Drop counts.
+// `[negative-count]` for Take/Drop counts.
 
-const extCap = 200   // longest expected output that is consumed completely
-const extSlack = 64  // steps a walker grants beyond the expected end before it says nontermination
-const extMaxK = 40   // longest demanded prefix of a huge / unbounded value
+const extCap = 200  // longest expected output that is consumed completely
+const extSlack = 64 // steps a walker grants beyond the expected end before it says nontermination
+const extMaxK = 40  // longest demanded prefix of a huge / unbounded value
 
 var extAnchors = []int{math.MinInt, math.MinInt + 1, math.MinInt + 2, -2, -1, 0, 1, 2, math.MaxInt - 2, math.MaxInt - 1, math.MaxInt}
 
@@ -53,7 +53,7 @@ type extSpec struct {
 	Vals []int `json:"input"`
 }
 
-func satAdd(a, d int) int {
+func extSatAdd(a, d int) int {
 	if d > 0 && a > math.MaxInt-d {
 		return math.MaxInt
 	}
@@ -70,7 +70,7 @@ func genExtInt(r *rand.Rand) int {
 	case x < 85:
 		return r.IntN(81) - 40
 	}
-	return satAdd(extAnchors[r.IntN(len(extAnchors))], r.IntN(141)-70)
+	return extSatAdd(extAnchors[r.IntN(len(extAnchors))], r.IntN(141)-70)
 }
 
 var extDeltas = []int{-65, -3, -2, -1, 0, 1, 2, 3, 7, 8, 9, 64, 65, 199, 200, 201, 300, 1 << 20}
@@ -85,10 +85,10 @@ func genExtCase(r *rand.Rand, i int) *extSpec {
 		sp.From, sp.To = genExtInt(r), genExtInt(r)
 	case mode == 1:
 		sp.From = genExtInt(r)
-		sp.To = satAdd(sp.From, extDeltas[r.IntN(len(extDeltas))])
+		sp.To = extSatAdd(sp.From, extDeltas[r.IntN(len(extDeltas))])
 	default:
 		sp.To = genExtInt(r)
-		sp.From = satAdd(sp.To, -extDeltas[r.IntN(len(extDeltas))])
+		sp.From = extSatAdd(sp.To, -extDeltas[r.IntN(len(extDeltas))])
 	}
 	sp.M = []int{0, 1, 2, 3, 8, 9, 33, 64}[r.IntN(8)]
 	switch r.IntN(4) {
@@ -132,11 +132,11 @@ func (rf extRef) prefix(k int) []int {
 	return out
 }
 
-func sliceRef(xs []int) extRef {
+func extSliceRef(xs []int) extRef {
 	return extRef{n: len(xs), at: func(i int) int { return xs[i] }}
 }
 
-func rangeRef(from, to int, closed bool) extRef {
+func extRangeRef(from, to int, closed bool) extRef {
 	at := func(i int) int { return from + i } // i < number of elements: never passes `to`
 	var span uint
 	switch {
@@ -168,7 +168,7 @@ func boundClass(to int) string {
 
 func countClass(n int) string {
 	if n < 0 {
-		return "[negative count]"
+		return "[negative-count]"
 	}
 	return ""
 }
@@ -223,9 +223,9 @@ func (x *extRun) site(name, class string, f func(fail func(kind, detail string))
 	f(fail)
 }
 
-// walkIter: HasNext/Next walk against the reference under a pull budget. ok = the value ended
+// extWalkIter: HasNext/Next walk against the reference under a pull budget. ok = the value ended
 // where the reference ends (finite) resp. delivered the demanded prefix (huge).
-func walkIter(it fp.Iterator[int], rf extRef, k int, fail func(kind, detail string)) bool {
+func extWalkIter(it fp.Iterator[int], rf extRef, k int, fail func(kind, detail string)) bool {
 	want := rf.prefix(k)
 	if !rf.huge {
 		want = rf.prefix(rf.n)
@@ -241,18 +241,18 @@ func walkIter(it fp.Iterator[int], rf extRef, k int, fail func(kind, detail stri
 		hn := it.HasNext()
 		if j < len(want) {
 			if !hn {
-				fail("disagrees", fmt.Sprintf("ends after %d elements, expected %d elements %s", j, len(want), showInts(want)))
+				fail("disagrees", fmt.Sprintf("ends after %d elements, expected %d elements %s", j, len(want), extShowInts(want)))
 				return false
 			}
 			if v := it.Next(); v != want[j] {
-				fail("disagrees", fmt.Sprintf("element %d is %d, expected %d (expected %s)", j, v, want[j], showInts(want)))
+				fail("disagrees", fmt.Sprintf("element %d is %d, expected %d (expected %s)", j, v, want[j], extShowInts(want)))
 				return false
 			}
 			continue
 		}
 		if !hn {
 			if j > len(want) {
-				fail("disagrees", fmt.Sprintf("%d elements, expected %d elements %s", j, len(want), showInts(want)))
+				fail("disagrees", fmt.Sprintf("%d elements, expected %d elements %s", j, len(want), extShowInts(want)))
 				return false
 			}
 			return true
@@ -261,8 +261,8 @@ func walkIter(it fp.Iterator[int], rf extRef, k int, fail func(kind, detail stri
 	}
 }
 
-// walkList: IsEmpty/Head/Tail walk under a cell budget.
-func walkList(l fp.List[int], rf extRef, k int, fail func(kind, detail string)) bool {
+// extWalkList: IsEmpty/Head/Tail walk under a cell budget.
+func extWalkList(l fp.List[int], rf extRef, k int, fail func(kind, detail string)) bool {
 	want := rf.prefix(k)
 	if !rf.huge {
 		want = rf.prefix(rf.n)
@@ -282,16 +282,16 @@ func walkList(l fp.List[int], rf extRef, k int, fail func(kind, detail string)) 
 		}
 		if j < len(want) {
 			if empty {
-				fail("disagrees", fmt.Sprintf("ends after %d elements, expected %d elements %s", j, len(want), showInts(want)))
+				fail("disagrees", fmt.Sprintf("ends after %d elements, expected %d elements %s", j, len(want), extShowInts(want)))
 				return false
 			}
 			if v := l.Head(); v != want[j] {
-				fail("disagrees", fmt.Sprintf("element %d is %d, expected %d (expected %s)", j, v, want[j], showInts(want)))
+				fail("disagrees", fmt.Sprintf("element %d is %d, expected %d (expected %s)", j, v, want[j], extShowInts(want)))
 				return false
 			}
 		} else if empty {
 			if j > len(want) {
-				fail("disagrees", fmt.Sprintf("%d elements, expected %d elements %s", j, len(want), showInts(want)))
+				fail("disagrees", fmt.Sprintf("%d elements, expected %d elements %s", j, len(want), extShowInts(want)))
 				return false
 			}
 			return true
@@ -300,14 +300,14 @@ func walkList(l fp.List[int], rf extRef, k int, fail func(kind, detail string)) 
 	}
 }
 
-func showInts(xs []int) string {
+func extShowInts(xs []int) string {
 	if len(xs) > 6 {
 		return fmt.Sprintf("%v.. (%d)", xs[:6], len(xs))
 	}
 	return fmt.Sprint(xs)
 }
 
-func sameInts(a, b []int) bool {
+func extSameInts(a, b []int) bool {
 	if len(a) != len(b) {
 		return false
 	}
@@ -319,7 +319,7 @@ func sameInts(a, b []int) bool {
 	return true
 }
 
-func sumInts(xs []int) int {
+func extSumInts(xs []int) int {
 	s := 0
 	for _, v := range xs {
 		s += v
@@ -327,9 +327,9 @@ func sumInts(xs []int) int {
 	return s
 }
 
-type idxPair = fp.Tuple2[int, int]
+type extIdxPair = fp.Tuple2[int, int]
 
-func checkIdx(got []idxPair, want []int) string {
+func extCheckIdx(got []extIdxPair, want []int) string {
 	if len(got) != len(want) {
 		return fmt.Sprintf("%d pairs, expected %d", len(got), len(want))
 	}
@@ -345,21 +345,21 @@ func checkIdx(got []idxPair, want []int) string {
 func (x *extRun) iterValue(name, class string, mk func() fp.Iterator[int], rf extRef) {
 	k := x.sp.K
 	x.site(name, class, func(fail func(kind, detail string)) {
-		if !walkIter(mk(), rf, k, fail) {
+		if !extWalkIter(mk(), rf, k, fail) {
 			return
 		}
 		pre := rf.prefix(k)
-		if got := mk().Take(k).ToSeq(); !sameInts(got, pre) {
-			fail("disagrees", fmt.Sprintf(".Take(%d).ToSeq() = %s, expected %s", k, showInts(got), showInts(pre)))
+		if got := mk().Take(k).ToSeq(); !extSameInts(got, pre) {
+			fail("disagrees", fmt.Sprintf(".Take(%d).ToSeq() = %s, expected %s", k, extShowInts(got), extShowInts(pre)))
 			return
 		}
-		if !walkList(list.Collect(mk()), rf, k, func(kind, d string) { fail(kind, "list.Collect of it: "+d) }) {
+		if !extWalkList(list.Collect(mk()), rf, k, func(kind, d string) { fail(kind, "list.Collect of it: "+d) }) {
 			return
 		}
-		if !walkList(iterator.ToList(mk()), rf, k, func(kind, d string) { fail(kind, "iterator.ToList of it: "+d) }) {
+		if !extWalkList(iterator.ToList(mk()), rf, k, func(kind, d string) { fail(kind, "iterator.ToList of it: "+d) }) {
 			return
 		}
-		if d := checkIdx(iterator.ZipWithIndex(mk()).Take(k).ToSeq(), pre); d != "" {
+		if d := extCheckIdx(iterator.ZipWithIndex(mk()).Take(k).ToSeq(), pre); d != "" {
 			fail("disagrees", "iterator.ZipWithIndex(it).Take(k): "+d)
 			return
 		}
@@ -372,8 +372,8 @@ func (x *extRun) iterValue(name, class string, mk func() fp.Iterator[int], rf ex
 			return
 		}
 		all := rf.prefix(rf.n)
-		if got := mk().ToSeq(); !sameInts(got, all) {
-			fail("disagrees", fmt.Sprintf("ToSeq() = %s, expected %s", showInts(got), showInts(all)))
+		if got := mk().ToSeq(); !extSameInts(got, all) {
+			fail("disagrees", fmt.Sprintf("ToSeq() = %s, expected %s", extShowInts(got), extShowInts(all)))
 			return
 		}
 		if got := mk().Count(); got != rf.n {
@@ -381,16 +381,16 @@ func (x *extRun) iterValue(name, class string, mk func() fp.Iterator[int], rf ex
 			return
 		}
 		b := vrt.NewBudget(int64(rf.n), "iterator.Fold function called more often than there are elements")
-		if got := iterator.Fold(mk(), 0, func(acc, v int) int { b.Tick(); return acc + v }); got != sumInts(all) {
-			fail("disagrees", fmt.Sprintf("iterator.Fold(sum) = %d, expected %d", got, sumInts(all)))
+		if got := iterator.Fold(mk(), 0, func(acc, v int) int { b.Tick(); return acc + v }); got != extSumInts(all) {
+			fail("disagrees", fmt.Sprintf("iterator.Fold(sum) = %d, expected %d", got, extSumInts(all)))
 			return
 		}
-		if got := iterator.Reduce(mk(), monoid.Sum[int]()); got != sumInts(all) {
-			fail("disagrees", fmt.Sprintf("iterator.Reduce(sum) = %d, expected %d", got, sumInts(all)))
+		if got := iterator.Reduce(mk(), monoid.Sum[int]()); got != extSumInts(all) {
+			fail("disagrees", fmt.Sprintf("iterator.Reduce(sum) = %d, expected %d", got, extSumInts(all)))
 			return
 		}
-		if got := seq.Collect(mk()); !sameInts(got, all) {
-			fail("disagrees", fmt.Sprintf("seq.Collect = %s, expected %s", showInts(got), showInts(all)))
+		if got := seq.Collect(mk()); !extSameInts(got, all) {
+			fail("disagrees", fmt.Sprintf("seq.Collect = %s, expected %s", extShowInts(got), extShowInts(all)))
 		}
 	})
 }
@@ -400,22 +400,22 @@ func (x *extRun) listValue(name, class string, mk func() fp.List[int], rf extRef
 	k := x.sp.K
 	x.site(name, class, func(fail func(kind, detail string)) {
 		l := mk()
-		if !walkList(l, rf, k, fail) {
+		if !extWalkList(l, rf, k, fail) {
 			return
 		}
-		if !walkList(l, rf, k, func(kind, d string) { fail(kind, "second walk of the same value: "+d) }) {
+		if !extWalkList(l, rf, k, func(kind, d string) { fail(kind, "second walk of the same value: "+d) }) {
 			return
 		}
 		pre := rf.prefix(k)
-		if got := iterator.FromList(mk()).Take(k).ToSeq(); !sameInts(got, pre) {
-			fail("disagrees", fmt.Sprintf("iterator.FromList(l).Take(%d).ToSeq() = %s, expected %s", k, showInts(got), showInts(pre)))
+		if got := iterator.FromList(mk()).Take(k).ToSeq(); !extSameInts(got, pre) {
+			fail("disagrees", fmt.Sprintf("iterator.FromList(l).Take(%d).ToSeq() = %s, expected %s", k, extShowInts(got), extShowInts(pre)))
 			return
 		}
-		if d := checkIdx(iterator.FromList(list.ZipWithIndex(mk())).Take(k).ToSeq(), pre); d != "" {
+		if d := extCheckIdx(iterator.FromList(list.ZipWithIndex(mk())).Take(k).ToSeq(), pre); d != "" {
 			fail("disagrees", "list.ZipWithIndex(l), first k: "+d)
 			return
 		}
-		if !walkIter(iterator.FromList(mk()), rf, k, func(kind, d string) { fail(kind, "iterator.FromList(l): "+d) }) {
+		if !extWalkIter(iterator.FromList(mk()), rf, k, func(kind, d string) { fail(kind, "iterator.FromList(l): "+d) }) {
 			return
 		}
 		if rf.huge {
@@ -423,17 +423,17 @@ func (x *extRun) listValue(name, class string, mk func() fp.List[int], rf extRef
 			return
 		}
 		all := rf.prefix(rf.n)
-		if got := mk().ToSeq(); !sameInts(got, all) {
-			fail("disagrees", fmt.Sprintf("ToSeq() = %s, expected %s", showInts(got), showInts(all)))
+		if got := mk().ToSeq(); !extSameInts(got, all) {
+			fail("disagrees", fmt.Sprintf("ToSeq() = %s, expected %s", extShowInts(got), extShowInts(all)))
 			return
 		}
 		b := vrt.NewBudget(int64(rf.n), "list.Fold function called more often than there are elements")
-		if got := list.Fold(mk(), 0, func(acc, v int) int { b.Tick(); return acc + v }); got != sumInts(all) {
-			fail("disagrees", fmt.Sprintf("list.Fold(sum) = %d, expected %d", got, sumInts(all)))
+		if got := list.Fold(mk(), 0, func(acc, v int) int { b.Tick(); return acc + v }); got != extSumInts(all) {
+			fail("disagrees", fmt.Sprintf("list.Fold(sum) = %d, expected %d", got, extSumInts(all)))
 			return
 		}
-		if got := list.Reduce(mk(), monoid.Sum[int]()); got != sumInts(all) {
-			fail("disagrees", fmt.Sprintf("list.Reduce(sum) = %d, expected %d", got, sumInts(all)))
+		if got := list.Reduce(mk(), monoid.Sum[int]()); got != extSumInts(all) {
+			fail("disagrees", fmt.Sprintf("list.Reduce(sum) = %d, expected %d", got, extSumInts(all)))
 			return
 		}
 		n := 0
@@ -444,7 +444,7 @@ func (x *extRun) listValue(name, class string, mk func() fp.List[int], rf extRef
 	})
 }
 
-func takeRef(src extRef, n int) extRef {
+func extTakeRef(src extRef, n int) extRef {
 	switch {
 	case n <= 0:
 		return extRef{n: 0, at: src.at}
@@ -456,7 +456,7 @@ func takeRef(src extRef, n int) extRef {
 	return src
 }
 
-func dropRef(src extRef, n int) extRef { // src finite
+func extDropRef(src extRef, n int) extRef { // src finite
 	if n <= 0 {
 		return src
 	}
@@ -472,11 +472,12 @@ func execExt(w *vrt.W, sp *extSpec) *extRun {
 	bc, cc := boundClass(to), countClass(n)
 
 	// ranges
-	open, closed := rangeRef(from, to, false), rangeRef(from, to, true)
+	open, closed := extRangeRef(from, to, false), extRangeRef(from, to, true)
 	x.iterValue("iterator.Range", bc, func() fp.Iterator[int] { return iterator.Range(from, to) }, open)
 	x.iterValue("iterator.RangeClosed", bc, func() fp.Iterator[int] { return iterator.RangeClosed(from, to) }, closed)
 	x.listValue("list.Range", bc, func() fp.List[int] { return list.Range(from, to) }, open)
 	x.listValue("list.RangeClosed", bc, func() fp.List[int] { return list.RangeClosed(from, to) }, closed)
+	rangesOK := len(x.fails) == 0
 
 	// list.GenerateFrom(start): the generator sees start, start+1, .. (int arithmetic, wraps);
 	// it is a pure function of the index that ends the list M cells after start
@@ -534,45 +535,45 @@ func execExt(w *vrt.W, sp *extSpec) *extRun {
 
 	// Take / Drop with extreme counts: finite input, a range, an unbounded generator
 	vals := sp.Vals
-	fin := sliceRef(vals)
-	x.iterValue("Iterator.Take", cc, func() fp.Iterator[int] { return iterator.FromSlice(vals).Take(n) }, takeRef(fin, n))
-	x.iterValue("Iterator.Drop", cc, func() fp.Iterator[int] { return iterator.FromSlice(vals).Drop(n) }, dropRef(fin, n))
-	x.iterValue("Iterator.Take(of list)", cc, func() fp.Iterator[int] { return iterator.FromList(list.FromSlice(vals)).Take(n) }, takeRef(fin, n))
-	x.iterValue("Iterator.Drop(of list)", cc, func() fp.Iterator[int] { return iterator.FromList(list.FromSlice(vals)).Drop(n) }, dropRef(fin, n))
-	x.iterValue("Iterator.Take(of range)", cc, func() fp.Iterator[int] { return iterator.Range(from, to).Take(n) }, takeRef(open, n))
+	fin := extSliceRef(vals)
+	x.iterValue("Iterator.Take", cc, func() fp.Iterator[int] { return iterator.FromSlice(vals).Take(n) }, extTakeRef(fin, n))
+	x.iterValue("Iterator.Drop", cc, func() fp.Iterator[int] { return iterator.FromSlice(vals).Drop(n) }, extDropRef(fin, n))
+	x.iterValue("Iterator.Take(of list)", cc, func() fp.Iterator[int] { return iterator.FromList(list.FromSlice(vals)).Take(n) }, extTakeRef(fin, n))
+	x.iterValue("Iterator.Drop(of list)", cc, func() fp.Iterator[int] { return iterator.FromList(list.FromSlice(vals)).Drop(n) }, extDropRef(fin, n))
+	x.iterValue("Iterator.Take(of range)", cc, func() fp.Iterator[int] { return iterator.Range(from, to).Take(n) }, extTakeRef(open, n))
 	x.iterValue("Iterator.Take(of unbounded)", cc, func() fp.Iterator[int] {
 		c := from
 		b := vrt.NewBudget(int64(extCap+3*extSlack), "unbounded generator pulled far beyond the Take count")
 		return iterator.Generate(func() int { b.Tick(); v := c; c++; return v }).Take(n)
-	}, takeRef(extRef{huge: true, at: func(i int) int { return from + i }}, n))
+	}, extTakeRef(extRef{huge: true, at: func(i int) int { return from + i }}, n))
 	if !open.huge {
-		x.iterValue("Iterator.Drop(of range)", cc, func() fp.Iterator[int] { return iterator.Range(from, to).Drop(n) }, dropRef(open, n))
+		x.iterValue("Iterator.Drop(of range)", cc, func() fp.Iterator[int] { return iterator.Range(from, to).Drop(n) }, extDropRef(open, n))
 	}
 	x.site("Seq.Take", cc, func(fail func(kind, detail string)) {
-		want := takeRef(fin, n).prefix(len(vals))
-		if got := fp.Seq[int](vals).Take(n); !sameInts(got, want) {
-			fail("disagrees", fmt.Sprintf("Seq%v.Take(%d) = %s, expected %s", vals, n, showInts(got), showInts(want)))
+		want := extTakeRef(fin, n).prefix(len(vals))
+		if got := fp.Seq[int](vals).Take(n); !extSameInts(got, want) {
+			fail("disagrees", fmt.Sprintf("Seq%v.Take(%d) = %s, expected %s", vals, n, extShowInts(got), extShowInts(want)))
 		}
 	})
 	x.site("Seq.Drop", cc, func(fail func(kind, detail string)) {
-		want := dropRef(fin, n).prefix(len(vals))
-		if got := fp.Seq[int](vals).Drop(n); !sameInts(got, want) {
-			fail("disagrees", fmt.Sprintf("Seq%v.Drop(%d) = %s, expected %s", vals, n, showInts(got), showInts(want)))
+		want := extDropRef(fin, n).prefix(len(vals))
+		if got := fp.Seq[int](vals).Drop(n); !extSameInts(got, want) {
+			fail("disagrees", fmt.Sprintf("Seq%v.Drop(%d) = %s, expected %s", vals, n, extShowInts(got), extShowInts(want)))
 		}
 	})
 	// the three ZipWithIndex spellings on elements at the ends of the int range
 	x.site("seq.ZipWithIndex", "", func(fail func(kind, detail string)) {
-		if d := checkIdx(seq.ZipWithIndex(fp.Seq[int](vals)), vals); d != "" {
+		if d := extCheckIdx(seq.ZipWithIndex(fp.Seq[int](vals)), vals); d != "" {
 			fail("disagrees", d)
 		}
-		if !open.huge {
+		if !open.huge && rangesOK {
 			all := open.prefix(open.n)
 			a := seq.ZipWithIndex(fp.Seq[int](all))
 			b := iterator.ZipWithIndex(iterator.Range(from, to)).ToSeq()
 			c := iterator.FromList(list.ZipWithIndex(list.Range(from, to))).Take(open.n + 1).ToSeq()
-			if !reflect.DeepEqual([]idxPair(a), b) && !(len(a) == 0 && len(b) == 0) {
+			if !reflect.DeepEqual([]extIdxPair(a), b) && !(len(a) == 0 && len(b) == 0) {
 				fail("disagrees", fmt.Sprintf("iterator.ZipWithIndex(iterator.Range(%d,%d)) differs from seq.ZipWithIndex of the same elements", from, to))
-			} else if !reflect.DeepEqual([]idxPair(a), c) && !(len(a) == 0 && len(c) == 0) {
+			} else if !reflect.DeepEqual([]extIdxPair(a), c) && !(len(a) == 0 && len(c) == 0) {
 				fail("disagrees", fmt.Sprintf("list.ZipWithIndex(list.Range(%d,%d)) differs from seq.ZipWithIndex of the same elements", from, to))
 			}
 		}
@@ -624,7 +625,7 @@ func runExtCase(w *vrt.W, i int) {
 	w.Add("extremes.from."+extArgClass(sp.From), 1)
 	w.Add("extremes.to."+extArgClass(sp.To), 1)
 	w.Add("extremes.count."+extArgClass(sp.N), 1)
-	open, closed := rangeRef(sp.From, sp.To, false), rangeRef(sp.From, sp.To, true)
+	open, closed := extRangeRef(sp.From, sp.To, false), extRangeRef(sp.From, sp.To, true)
 	spanClass := "short"
 	switch {
 	case sp.To < sp.From:
